@@ -18,6 +18,9 @@
     order; the returned bits have non-zero Born probability.
   * `T12_flag_without_operation` : a flagged gate for which the engine has no operation never
     yields a tableau (an exception, not a wrong state).
+  * `T12_repeated_*` : `execute_circuit_repeated` — every shot is the single run from the SAME
+    initial state; with an initial tableau prepared by a circuit the final samples have non-zero
+    Born probability in the state of (preparation ++ circuit).
 -/
 import QV.Props.C12e
 import QV.Proofs.CliffordAccept
@@ -122,6 +125,58 @@ theorem T12_flag_without_operation (n : Nat) (init : Option Tableau) (pre rest :
   unfold execute
   rw [if_pos hacc, execItems_no_operation n pre rest true hu]
 
+/-! ### repeated execution (`execute_circuit_repeated`) -/
+
+/-- every shot of the repeated execution is the single run of the circuit from the SAME initial
+state (with the shot's own random bits). -/
+theorem T12_repeated_shot_is_single_run (n : Nat) (init : Option Tableau) (c : List QItem)
+    (finalQs : List Nat) (shots : List (List Bool × List Bool)) :
+    (executeRepeated n init c finalQs shots).map Prod.fst
+      = shots.map (fun s => execute n init c s.1) := by
+  simp only [executeRepeated, List.map_map]
+  refine List.map_congr_left (fun s _ => ?_)
+  simp only [Function.comp, shotOf]
+  cases execute n init c s.1 <;> rfl
+
+/-- a shot is refused exactly when the single run is. -/
+theorem T12_repeated_refused_iff (n : Nat) (init : Option Tableau) (c : List QItem)
+    (finalQs : List Nat) (coins fcoins : List Bool) :
+    (shotOf n init c finalQs coins fcoins).1 = Res.refused ↔ ∃ op, QItem.gate false op ∈ c := by
+  rw [← T12_refused_iff n init c coins]
+  unfold shotOf
+  cases execute n init c coins <;> simp
+
+/-- a shot of an accepted circuit without collapse: the fold of its operations from the initial
+state, then the final sample is the measurement routine on that tableau. -/
+theorem T12_repeated_unitary_shot (n : Nat) (init : Option Tableau) (c : List QItem)
+    (finalQs : List Nat) (coins fcoins : List Bool) (hacc : accepts c = true)
+    (hu : ∀ it ∈ c, it.unitary = true) :
+    shotOf n init c finalQs coins fcoins
+      = (Res.done (runGates (opsOf c) (init.getD (zeroState n))) [],
+         (measure n (runGates (opsOf c) (init.getD (zeroState n))) finalQs fcoins).2.map Prod.fst) := by
+  unfold shotOf
+  rw [T12_accepted_run_is_fold n init c coins hacc hu]
+
+/-- … and with an initial tableau prepared by a Clifford circuit `prep`, the final sample of
+every shot has non-zero Born probability in the state vector of `prep` followed by the circuit —
+not of the circuit from `|0…0⟩`. -/
+theorem T12_repeated_shot_born (n : Nat) (prep : List Gate) (c : List QItem) (finalQs : List Nat)
+    (coins fcoins : List Bool) (hacc : accepts c = true) (hu : ∀ it ∈ c, it.unitary = true)
+    (hprep : ∀ g ∈ prep, g.ok n) (hok : ∀ g ∈ opsOf c, g.ok n) (hq : ∀ q ∈ finalQs, q < n) :
+    ∃ x : Lab,
+      (∀ qb ∈ finalQs.zip (shotOf n (some (runGates prep (zeroState n))) c finalQs coins fcoins).2,
+        x qb.1 = qb.2) ∧ runSV n (prep ++ opsOf c) x ≠ 0 := by
+  rw [T12_repeated_unitary_shot n _ c finalQs coins fcoins hacc hu]
+  simp only [Option.getD_some]
+  have e : runGates (opsOf c) (runGates prep (zeroState n)) = runGates (prep ++ opsOf c) (zeroState n) := by
+    simp [runGates, List.foldl_append]
+  rw [e]
+  exact T12_measurement_sequence_born n (prep ++ opsOf c)
+    (fun g hg => by
+      rcases List.mem_append.1 hg with h | h
+      · exact hprep g h
+      · exact hok g h) finalQs hq fcoins
+
 /-! ### non-vacuity / instances -/
 
 /-- an accepted circuit with a reporting measurement and a noise draw (hypotheses of
@@ -142,6 +197,14 @@ example :
         .meas [1, 0] true] [true] with
       | Res.done _ outs => outs
       | _ => []) = [[true, true]] := by decide
+
+/-- repeated execution from the initial state `|10⟩`: `M(0, collapse)` is determined (1), and
+after `CNOT(0,1)` the final sample is `11` in every shot, whatever the coins. -/
+example :
+    let init := some (runGates [Gate.X 0] (zeroState 2))
+    let c := [QItem.meas [0] true, .gate true (some (Gate.CNOT 0 1)), .meas [0, 1] false]
+    (executeRepeated 2 init c [0, 1] [([false], [false, false]), ([true], [false, true])]).map Prod.snd
+      = [[true, true], [true, true]] := by decide
 
 /-- `sorted` really sorts (used for the collapsing measurement). -/
 example : sortNat [3, 0, 2, 1] = [0, 1, 2, 3] ∧ indexIn 2 [0, 1, 2, 3] = 2 := by decide
